@@ -15,7 +15,8 @@ THEOREMS = ['C19_rename_outcome', 'C19_rename_ok_iff', 'C19_rename_references', 
             'C19_remove_gate_outcome', 'C19_no_users_iff', 'C19_remove_gate_state', 'C19_remove_gate_well_formed',
             'C19_remove_gate_semantics',
             'C19_replace_subcircuit_renaming', 'C19_replace_subcircuit_well_formed', 'C19_replace_subcircuit_semantics',
-            'C19_replace_subcircuit_truth_table', 'C19_replace_subcircuit_errors', 'C19_replace_subcircuit_example',
+            'C19_replace_subcircuit_truth_table', 'C19_replace_subcircuit_errors',
+            'C19_replace_subcircuit_arity_needed', 'C19_replace_subcircuit_example',
             'C19_example']
 PARTIAL = {'C19_rename_evaluate_partial': 'entry-point version of C19_rename_truth_table: evaluate on the renamed circuit gives '
                                            'the same output vector whenever both calls return; that the second call returns '
